@@ -3,8 +3,8 @@
 #define DECL(m) extern const module_t m __attribute__((weak));
 DECL(mod_C01) DECL(mod_C02) DECL(mod_C03) DECL(mod_C04) DECL(mod_C05) DECL(mod_C06) DECL(mod_C07) DECL(mod_C08) DECL(mod_C09) DECL(mod_C10)
 DECL(mod_C11) DECL(mod_C12) DECL(mod_C13) DECL(mod_C14) DECL(mod_C15) DECL(mod_C16) DECL(mod_C20)
-DECL(mod_C01X) DECL(mod_C02X) DECL(mod_C03X) DECL(mod_C04X) DECL(mod_C05X) DECL(mod_C06X) DECL(mod_C08X) DECL(mod_C12T) DECL(mod_C07C) DECL(mod_C07H)
+DECL(mod_C01X) DECL(mod_C02X) DECL(mod_C03X) DECL(mod_C04X) DECL(mod_C05X) DECL(mod_C06X) DECL(mod_C08X) DECL(mod_C12T) DECL(mod_C07C) DECL(mod_C07H) DECL(mod_C06B)
 const module_t *const all_modules[] = {&mod_C01, &mod_C02, &mod_C03, &mod_C04, &mod_C05, &mod_C06, &mod_C07, &mod_C08, &mod_C09, &mod_C10,
                                        &mod_C11, &mod_C12, &mod_C13, &mod_C14, &mod_C15, &mod_C16, &mod_C20,
-                                       &mod_C01X, &mod_C02X, &mod_C03X, &mod_C04X, &mod_C05X, &mod_C06X, &mod_C08X, &mod_C12T, &mod_C07C, &mod_C07H, 0};
+                                       &mod_C01X, &mod_C02X, &mod_C03X, &mod_C04X, &mod_C05X, &mod_C06X, &mod_C08X, &mod_C12T, &mod_C07C, &mod_C07H, &mod_C06B, 0};
 const int all_modules_n = (int)(sizeof all_modules / sizeof all_modules[0]) - 1;
